@@ -121,25 +121,41 @@ def symbol_subset(tkey, k=5):
 
 
 def enum_histories(tkey, max_ops, k=5):
-    """all op sequences of length 1..max_ops over add(a), remove(i), dot_none(a), to_string; remove/dot_none are
-    only generated where they can refer to a held child (judged on names, optimistic)"""
+    """all op sequences of length 1..max_ops over add(a), remove(i), dot_none(a), to_string.  Sequences start with an
+    add (anything else on an empty element is a no-op); remove(i) only for positions that can exist, dot_none(a) only
+    for names that were added before (judged optimistically on the ops, not on their outcome)."""
     syms = symbol_subset(tkey, k)
 
-    def rec(prefix, held, depth):
+    def rec(prefix, added, depth):
         if depth == 0:
             return
         cands = [['add', a] for a in syms]
-        cands += [['remove', i] for i in range(min(held, 3))]
-        if held:
-            cands += [['dot_none', a] for a in syms]
-        cands.append(['to_string', 0])
+        if added:
+            cands += [['remove', i] for i in range(min(len(added), 3))]
+            cands += [['dot_none', a] for a in sorted(set(added))]
+            cands.append(['to_string', 0])
         for op in cands:
-            h = held + (1 if op[0] == 'add' else 0)   # optimistic: rejected adds leave fewer
             p = prefix + [op]
             yield p
-            yield from rec(p, h, depth - 1)
+            yield from rec(p, added + [op[1]] if op[0] == 'add' else added, depth - 1)
 
-    yield from rec([], 0, max_ops)
+    yield from rec([], [], max_ops)
+
+
+def enum_word_removals(tkey, max_len, cap):
+    """valid words (all up to max_len, capped, plus the 2-switch cover up to length 8, which contains the repeated
+    groups) added in document order, followed by the removal of each single child; for short words also every
+    ordered pair of removals.  Targets remove() inside duplicated / nested particles with a seed-independent set."""
+    dfa = schema().dfa(tkey)
+    words = [w for w in dfa.enumerate(max_len, cap=cap) if len(w) >= 2]
+    words += [w for w in dfa.switch_cover() if max_len < len(w) <= 8][:cap // 3]
+    for w in words:
+        adds = [['add', a] for a in w]
+        for i in range(len(w)):
+            yield adds + [['remove', i]]
+            if len(w) <= 4:
+                for j in range(len(w) - 1):
+                    yield adds + [['remove', i], ['remove', j]]
 
 
 def shards(ctx):
@@ -165,16 +181,14 @@ def run_shard(ctx, shard, acc):
         for t, els in shard['types']:
             n = len(s.alphabet(t))
             depth = 3
-            k = 5 if ctx.quick else 6
+            k = 8 if ctx.quick else 12
             if not ctx.quick and n <= 4:
                 depth = 4
-            for ops in enum_histories(t, depth, k):
-                if ops[-1][0] != 'to_string':
-                    continue   # a verdict needs a serialisation; prefixes are covered by their extensions
-                run, f = execute(els[0], ops, final=False)
+            for ops in itertools.chain(enum_histories(t, depth, k),
+                                       enum_word_removals(t, 4, 150 if ctx.quick else 1500)):
+                run, f = execute(els[0], ops, final=True)     # every history is followed by to_string(ic=0 and 1)
                 if run.e is None:
                     break
-                rc = sum(1 for op in ops if op[0] == 'add')
                 _account(acc, run, len(run.model))
                 if f:
                     acc.fail(f, raise_=False)
